@@ -7,7 +7,7 @@ from bodies import AttrTable, Tokens, gen_ical, gen_vcard, INVALID_ICAL, UIDS
 from httpfam import BOOK, CAL, compare_http, execute_http
 
 AUDIT = "Audit/C17.lean"
-MODULE = "Xandikos.Theorems.C17"
+MODULE = "Xandikos.Theorems.C17Compose"
 PREFIXES = ("C17:",)
 
 CAL2 = "/user/calendars/second"
